@@ -186,7 +186,9 @@ pub fn key_fn(k: &KeyPlan, nlocales: usize, opts: &PlanOpts) -> String {
                 false
             }
         };
-        if opts.string_backend {
+        if opts.string_backend && opts.async_strings {
+            let _ = writeln!(s, "            emit({}, li, {}, ci, 'S', &futures::executor::block_on(td_string!(l, {}{})).to_string());", k.idx, ai, path, sargs);
+        } else if opts.string_backend {
             let _ = writeln!(s, "            emit({}, li, {}, ci, 'S', &td_string!(l, {}{}).to_string());", k.idx, ai, path, sargs);
         }
         if opts.display_backend {
@@ -229,4 +231,24 @@ pub fn write_package(dir: &Path, name: &str, p: &Project, main_rs: &str, style: 
     std::fs::create_dir_all(dir.join("src"))?;
     std::fs::write(dir.join("src/main.rs"), main_rs)?;
     Ok(())
+}
+
+/// add the observation of the run-time string tables (dynamic_load builds) to a generated main.rs
+pub fn with_tables(main: &str, p: &Project) -> String {
+    let mut f = String::from("fn tables() {\n");
+    for li in 0..p.locales.len() {
+        match &p.namespaces {
+            None => {
+                let _ = writeln!(f, "    {{ let t = I18nKeys::__i18n_request_translations__(loc({li}), ()); println!(\"T|{li}|-\\t{{}}\", esc(&serde_json::to_string(t).unwrap())); }}");
+            }
+            Some(nss) => {
+                for ns in nss {
+                    let _ = writeln!(f, "    {{ let t = I18nKeys::__i18n_request_translations__(loc({li}), I18nTranslationUnitsId::{ns}); println!(\"T|{li}|{ns}\\t{{}}\", esc(&serde_json::to_string(t).unwrap())); }}");
+                }
+            }
+        }
+    }
+    f.push_str("}\n");
+    let main = main.replace("    println!(\"DONE\");", "    tables();\n    println!(\"DONE\");");
+    format!("{main}\n{f}")
 }
